@@ -532,7 +532,8 @@ class TemporalFrame(CoordinateFrame):
             return [('temporal', 0, 'value')]
 
         def offset_from_time_and_reference(time):
-            return (time - self.reference_frame).sec
+            # in the unit of this frame's axis (``world_axis_units``), not always seconds
+            return (time - self.reference_frame).to_value(self.unit[0])
         return [('temporal', 0, offset_from_time_and_reference)]
 
     def coordinates(self, *args):
